@@ -45,13 +45,7 @@ pub(super) fn build_sibling_rules(rules: &[StructureRule]) -> Result<Vec<Compile
 
     let mut compiled_rules = Vec::new();
 
-    for rule in rules {
-        let dir_glob = Glob::new(&rule.scope).map_err(|e| SlocGuardError::InvalidPattern {
-            pattern: rule.scope.clone(),
-            source: e,
-        })?;
-        let dir_matcher = dir_glob.compile_matcher();
-
+    for (rule_index, rule) in rules.iter().enumerate() {
         for sibling in &rule.siblings {
             match sibling {
                 SiblingRule::Directed {
@@ -67,7 +61,7 @@ pub(super) fn build_sibling_rules(rules: &[StructureRule]) -> Result<Vec<Compile
 
                     compiled_rules.push(CompiledSiblingRule::Directed {
                         dir_scope: rule.scope.clone(),
-                        dir_matcher: dir_matcher.clone(),
+                        rule_index,
                         file_matcher: file_glob.compile_matcher(),
                         sibling_templates: require
                             .as_patterns()
@@ -80,7 +74,7 @@ pub(super) fn build_sibling_rules(rules: &[StructureRule]) -> Result<Vec<Compile
                 SiblingRule::Group { group, severity } => {
                     compiled_rules.push(CompiledSiblingRule::Group {
                         dir_scope: rule.scope.clone(),
-                        dir_matcher: dir_matcher.clone(),
+                        rule_index,
                         group_patterns: group.clone(),
                         is_warning: *severity == SiblingSeverity::Warn,
                     });
